@@ -250,7 +250,7 @@ def errs():
     return (H.Unsupported, AssertionError, IndexError, KeyError, TypeError, ValueError, RecursionError)
 
 
-def row_primitives(ctx, w, S, rule):
+def row_primitives(ctx, w, S, rule, spec=True):
     """Line insert / delete / clear / print against their specification."""
     ctx.rule(rule, "row primitives interpreted on symbolic cells for every row width <= 5, column and count: insert shifts right and drops the overflow, delete shifts left and "
                    "blanks the tail with the pen, clear blanks exactly its range, print replaces exactly one cell; a slice panic counts as a violation")
@@ -295,7 +295,7 @@ def row_primitives(ctx, w, S, rule):
         except errs() as ex:
             got, want = "error: %s" % (ex,), None
         n_cases += 1
-        if got != want:
+        if got != want and (spec or want is None):
             bad += 1
             if bad <= 6:
                 ctx.violation(rule, key, "Line %s on a %d-cell row gives %s, specification %s" % (desc, k, show(got), show(want)), loc=w.fn_loc(roles[which]))
@@ -340,7 +340,7 @@ def cfg_str(v):
     return "Some(%s)" % ",".join(str(x) for x in v[2][0][2].values())
 
 
-def scroll_primitives(ctx, w, S, rule):
+def scroll_primitives(ctx, w, S, rule, spec=True):
     """Buffer scroll_up / scroll_down on symbolic rows for every small geometry."""
     from rules import c06
     up, down = c06.scroll_prims(w, S)
@@ -420,6 +420,8 @@ def scroll_primitives(ctx, w, S, rule):
                             msg = None
                             if err:
                                 msg = err
+                            elif not spec:
+                                msg = None
                             elif got != want:
                                 msg = "rows %s, specification %s" % (got, want)
                             else:
@@ -449,3 +451,178 @@ def scroll_primitives(ctx, w, S, rule):
     if not bad:
         ctx.ok(rule, "all", {"cases": n_cases, "bound": "rows 1..4, scrollback 0..2 lines, every range, every count 0..rows+1", "scroll_up": up, "scroll_down": down})
     ctx.rule_counts[rule] = n_cases
+
+
+def buffer_edit_primitives(ctx, w, S, R, rule, spec=True):
+    """Buffer insert / delete / erase / print interpreted on symbolic screens (cols 1..4, rows 1..3, every cursor
+    position incl. the wrap-pending column, every count 0..cols+1, every erase selector as passed by the handlers).
+    spec=False: only absence of panics (index / slice / subtraction) is required (C01)."""
+    from rules import c07
+    import world as WD
+    E = w.E
+    ctx.rule(rule, ("buffer edit primitives interpreted on symbolic screens: " + ("each selector clears exactly its documented cells (blank + pen), ICH/DCH shift the rest of the row and drop the overflow, "
+                    "other rows and cells stay, the soft-wrap mark is cleared exactly when the tail is erased or characters are deleted; " if spec else "") + "no index, slice or subtraction panics for any cursor position (col <= cols), count or selector"))
+    sig = {}
+    for fn, fo in w.facts.fns.items():
+        if (fo.get("impl_self") or {}).get("adt") != S.buffer_ty or fo.get("impl_trait") or fn not in w.facts.hir:
+            continue
+        ins = [i["s"] for i in fo["inputs"]]
+        if len(ins) < 2 or not ins[0].startswith("&mut ") or ins[1] != "(usize, usize)":
+            continue
+        rest = tuple(ins[2:])
+        if rest == ("usize", "cell::Cell"):
+            sig["insert"] = fn
+        elif rest == ("usize", "&pen::Pen"):
+            sig["delete"] = fn
+        elif rest == ("cell::Cell",):
+            sig["print"] = fn
+        elif len(rest) == 2 and rest[1] == "&pen::Pen" and fo["inputs"][2].get("adt") in w.facts.adts and w.facts.adts[fo["inputs"][2]["adt"]]["kind"] == "enum":
+            sig["erase"] = fn
+            sig["mode_ty"] = fo["inputs"][2]["adt"]
+    for need in ("insert", "delete", "print", "erase"):
+        if need not in sig:
+            ctx.missing_anchor(rule, "Buffer %s primitive" % need)
+            return
+    # erase selectors -> mode value passed by the handlers
+    selectors = []
+    for (variant, scope), ref in sorted(c07.REF_SCOPES.items()):
+        for h in w.handler(variant):
+            m, i, arm = shared_arm(w, h, scope)
+            if arm is None:
+                continue
+            lines = {n.get("line") for n in H.walk(arm["body"]) if isinstance(n.get("line"), int)}
+            T = w.terms(h)
+            for cs in E.call_sites(h, sig["erase"]):
+                if cs.line in lines:
+                    mode = T.operand(cs.term["args"][2], cs.point)
+                    if mode[0] == "adt" and not mode[4]:
+                        selectors.append(("%s:%s" % (variant, scope.rsplit("::", 1)[-1]), ("v", "%s::%s" % (mode[1], mode[2])), ref))
+    for h in w.handler("Ech"):
+        T = w.terms(h)
+        for cs in E.call_sites(h, sig["erase"]):
+            mode = T.operand(cs.term["args"][2], cs.point)
+            if mode[0] == "adt" and len(mode[4]) == 1:
+                selectors.append(("Ech", ("vn", "%s::%s" % (mode[1], mode[2])), {"cols": "col..col+min(n,cols-col)", "unwrap": "iff-end", "rows": "row"}))
+    if len(selectors) < 7:
+        ctx.missing_anchor(rule, "erase selectors of ED/EL/ECH (found %d)" % len(selectors))
+        return
+    pen = ("sym", "PEN")
+    NEW = ("sym", "NEW")
+    bf = w.facts.struct_fields(S.buffer_ty)
+    n_cases = 0
+    bad = 0
+
+    def default_of(f):
+        s = f["ty"]["s"]
+        if s == "bool":
+            return False
+        if s == "usize":
+            return 0
+        if s.startswith("core::option::Option<"):
+            return H.NONE_V
+        return ("sym", "F_" + f["name"])
+
+    def run(op, key, cols, rows, pos, args, want_fn, what):
+        nonlocal n_cases, bad
+        names = [["r%dc%d" % (r, c) for c in range(cols)] for r in range(rows)]
+        lines = [("obj", S.line_ty, {S.cells_field: Vec([("sym", x) for x in names[r]]), S.wrap_field: True}) for r in range(rows)]
+        sb = ("obj", S.line_ty, {S.cells_field: Vec([("sym", "sb%d" % c) for c in range(cols)]), S.wrap_field: True})
+        flds = {f["name"]: default_of(f) for f in bf}
+        flds.update({S.lines_field: Vec([sb] + lines), S.buf_cols: cols, S.buf_rows: rows})
+        buf = ("obj", S.buffer_ty, flds)
+        it = VecInterp(w.facts)
+        n_cases += 1
+        try:
+            it.call_fn(sig[op], [buf, ("t", pos)] + args)
+            bl = it.call_fn("cell::Cell::blank", [pen])
+            got = []
+            for l in flds[S.lines_field].items:
+                got.append(([("blank" if c == bl else c[1] if isinstance(c, tuple) and c[0] == "sym" else "?") for c in l[2][S.cells_field].items], bool(l[2][S.wrap_field])))
+        except errs() as ex:
+            bad += 1
+            if bad <= 6:
+                ctx.violation(rule, key, "%s: %s" % (what, ex), loc=w.fn_loc(sig[op]))
+            return
+        if not spec:
+            return
+        want = [(["sb%d" % c for c in range(cols)], True)] + want_fn(names)
+        if got != want:
+            bad += 1
+            if bad <= 6:
+                diff = [(i - 1, g, x) for i, (g, x) in enumerate(zip(got, want)) if g != x]
+                ctx.violation(rule, key, "%s: row %d becomes %s (soft-wrapped: %s), specification %s (soft-wrapped: %s)" % (what, diff[0][0], diff[0][1][0], diff[0][1][1], diff[0][2][0], diff[0][2][1])
+                              if diff else "%s: number of rows changed" % what, loc=w.fn_loc(sig[op]))
+    for cols in range(1, 5):
+        for rows in range(1, 4):
+            for row in range(rows):
+                for col in range(cols + 1):
+                    geo = "%dx%d@(%d,%d)" % (cols, rows, col, row)
+                    if col < cols:
+                        def wp(names, col=col, row=row):
+                            out = [(list(r), True) for r in names]
+                            out[row][0][col] = "NEW"
+                            return out
+                        run("print", "print/" + geo, cols, rows, (col, row), [NEW], wp, "print at %s" % geo)
+                    for n in range(0, cols + 2):
+                        m = min(n, cols - col)
+
+                        def wi(names, col=col, row=row, m=m, cols=cols):
+                            out = [(list(r), True) for r in names]
+                            r0 = names[row]
+                            out[row] = (r0[:col] + ["NEW"] * m + r0[col:cols - m], True)
+                            return out
+
+                        def wd(names, col=col, row=row, m=m):
+                            out = [(list(r), True) for r in names]
+                            r0 = names[row]
+                            out[row] = (r0[:col] + r0[col + m:] + ["blank"] * m, False)
+                            return out
+                        run("insert", "insert/%s,n=%d" % (geo, n), cols, rows, (col, row), [n, NEW], wi, "insert %d at %s" % (n, geo))
+                        run("delete", "delete/%s,n=%d" % (geo, n), cols, rows, (col, row), [n, pen], wd, "delete %d at %s" % (n, geo))
+                    for label, mv, ref in selectors:
+                        ns = range(0, cols + 2) if mv[0] == "vn" else [None]
+                        for n in ns:
+                            mode = ("v", mv[1], (n,)) if mv[0] == "vn" else mv
+
+                            def we(names, col=col, row=row, cols=cols, rows=rows, ref=ref, n=n):
+                                out = [(list(r), True) for r in names]
+                                c = ref["cols"]
+                                if c == "col..cols":
+                                    lo, hi = col, cols
+                                elif c == "0..cols":
+                                    lo, hi = 0, cols
+                                elif c == "0..min(col+1,cols)":
+                                    lo, hi = 0, min(col + 1, cols)
+                                elif c == "col..col+min(n,cols-col)":
+                                    lo, hi = col, col + min(n, cols - col)
+                                else:
+                                    lo, hi = 0, 0
+                                cells = out[row][0]
+                                for x in range(lo, hi):
+                                    cells[x] = "blank"
+                                uw = ref["unwrap"]
+                                wrapped = True
+                                if uw == "always" or (uw == "iff-end" and hi == cols):
+                                    wrapped = False
+                                out[row] = (cells, wrapped)
+                                rr = ref["rows"]
+                                blank_row = (["blank"] * cols, False)
+                                if rr == "row+below":
+                                    for r in range(row + 1, rows):
+                                        out[r] = blank_row
+                                elif rr == "above+row":
+                                    for r in range(0, row):
+                                        out[r] = blank_row
+                                elif rr == "all":
+                                    out = [blank_row for _ in range(rows)]
+                                return out
+                            run("erase", "erase/%s/%s%s" % (label, geo, "" if n is None else ",n=%d" % n), cols, rows, (col, row), [mode, pen], we,
+                                "%s%s at %s" % (label, "" if n is None else " %d" % n, geo))
+    if not bad:
+        ctx.ok(rule, "all", {"cases": n_cases, "bound": "cols 1..4, rows 1..3, every cursor position incl. col == cols, counts 0..cols+1", "selectors": [s[0] for s in selectors]})
+    ctx.rule_counts[rule] = n_cases
+
+
+def shared_arm(w, h, scope):
+    from rules import shared
+    return shared.arm_for(w, h, scope)
